@@ -577,7 +577,7 @@ theorem blockRead_spec {x : X} {sr : Sr} {b : Blk} {D : ByteArray}
       | eof => rw [((q3 (by intro h; cases h)).1 hKB2).2.2]
       | err e =>
         exfalso
-        have := ((q3 (by intro h; cases h)).1).2 hKB2
+        have := ((q3 (by intro h; cases h)).1).2.1 hKB2
         rw [g3] at this
         cases e <;> simp [Status.cls, statusOf] at this
     have hm := tooBig_mono b.hdr.csize _ (B2.1.pos - b.start) (by omega) cC
@@ -606,7 +606,7 @@ theorem blockRead_spec {x : X} {sr : Sr} {b : Blk} {D : ByteArray}
       obtain ⟨f1, f2⟩ := q3 (by intro h; cases h)
       refine xfin_err f1.1 hprefix (hne_of (fun rs e1 e3 hst => ?_))
       obtain ⟨_, _, g3, _⟩ := blkOut_eof_imp _ _ _ _ hst
-      have := f1.2 hKB2
+      have := f1.2.1 hKB2
       rw [g3] at this
       cases e <;> simp [Status.cls, statusOf] at this
   rw [if_neg cE]
